@@ -98,6 +98,7 @@ func (r *InboundRequestSingleFlight) GetOrCreate(ctx *Context, response *GraphQL
 	inflight, shared := shard.m.LoadOrStore(key, request)
 	if shared {
 		request = inflight.(*InflightRequest)
+		verifYield("inbound.follower.beforeRegister", int64(key), 0)
 		request.AddFollower()
 		select {
 		case <-request.Done:
@@ -119,11 +120,13 @@ func (r *InboundRequestSingleFlight) FinishOk(req *InflightRequest, data []byte)
 	}
 	shard := r.shardFor(req.ID)
 	shard.m.Delete(req.ID)
+	verifYield("inbound.leader.afterDelete", int64(req.ID), 0)
 	if req.HasFollowers() {
 		// optimization to only copy when we actually have to
 		req.Data = make([]byte, len(data))
 		copy(req.Data, data)
 	}
+	verifYield("inbound.leader.beforeClose", int64(req.ID), 0)
 	close(req.Done)
 }
 
@@ -134,6 +137,7 @@ func (r *InboundRequestSingleFlight) FinishErr(req *InflightRequest, err error) 
 	shard := r.shardFor(req.ID)
 	shard.m.Delete(req.ID)
 	req.Err = err
+	verifYield("inbound.leaderErr.beforeClose", int64(req.ID), 0)
 	close(req.Done)
 }
 
